@@ -71,6 +71,18 @@ def fmt_offset(minutes, style):
 
 def render_ts(instant, offset_min, style):
     local = instant.astimezone(dt.timezone(dt.timedelta(minutes=offset_min)))
+    if style == "slash":
+        # "RP2 can parse most timestamp formats": month/day/year as spreadsheet programs write it; day/month/year only where it cannot be
+        # misread (day above 12). dateutil - and parse_ts below - read a/b/yyyy month-first unless a > 12.
+        if local.day > 12 and (local.minute + local.second) % 2 == 0:
+            s = "%02d/%02d/%04d" % (local.day, local.month, local.year)
+        else:
+            s = "%02d/%02d/%04d" % (local.month, local.day, local.year)
+        s += local.strftime(" %H:%M:%S")
+        if local.microsecond:
+            s += ".%06d" % local.microsecond
+        sign = "+" if offset_min >= 0 else "-"
+        return s + " %s%02d%02d" % (sign, abs(offset_min) // 60, abs(offset_min) % 60)
     sep = "T" if style == "T" else " "
     s = local.strftime("%Y-%m-%d" + sep + "%H:%M:%S")
     if local.microsecond:
@@ -80,6 +92,16 @@ def render_ts(instant, offset_min, style):
 
 def parse_ts(text):
     """Parse the timestamps this module renders (and only those) -> aware datetime."""
+    if "/" in text[:6]:
+        datepart, timepart, off = text.split(" ")
+        a, b, y = (int(x) for x in datepart.split("/"))
+        month, day = (b, a) if a > 12 else (a, b)
+        fmt = "%H:%M:%S.%f" if "." in timepart else "%H:%M:%S"
+        tm = dt.datetime.strptime(timepart, fmt)
+        minutes = int(off[1:3]) * 60 + int(off[3:5])
+        if off[0] == "-":
+            minutes = -minutes
+        return dt.datetime(y, month, day, tm.hour, tm.minute, tm.second, tm.microsecond, tzinfo=dt.timezone(dt.timedelta(minutes=minutes)))
     t = text.replace("T", " ")
     if t.endswith("Z"):
         t = t[:-1] + "+00:00"
@@ -160,6 +182,10 @@ def gen_asset_rows(rng, asset, exchanges, holders, flags, start_year):
     accounts = [(e, h) for e in exchanges for h in holders]
     bal = {}
     t = dt.datetime(start_year, rng.randint(1, 12), rng.randint(1, 28), rng.randint(0, 23), rng.randint(0, 59), rng.randint(0, 59), tzinfo=UTC)
+    if flags.get("new_year_start"):
+        # the history begins in the hours around a New Year: with mixed offsets the first rows fall into different wall-clock years than
+        # their instants do (year of the method schedule, of the yearly summaries, of the per-year sheets)
+        t = dt.datetime(start_year, 12, 31, rng.randint(10, 23), rng.randint(0, 59), rng.randint(0, 59), tzinfo=UTC)
     rows = []
     seq = [0]
     ts_styles = flags.get("ts_styles") or ["space"]
@@ -195,6 +221,8 @@ def gen_asset_rows(rng, asset, exchanges, holders, flags, start_year):
             gap = dt.timedelta(days=rng.randint(200, 500), seconds=rng.randint(1, 86399))
         if flags.get("micro") and rng.random() < 0.3:
             gap += dt.timedelta(microseconds=rng.randint(1, 999999))
+        if flags.get("new_year_start") and len(rows) < 4:
+            gap = dt.timedelta(minutes=rng.randint(1, 90), seconds=rng.randint(0, 59))
         if flags.get("micro") and rng.random() < 0.25:
             # distinct instants inside one second / one minute (code that truncates timestamps to a coarser resolution)
             gap = dt.timedelta(microseconds=rng.randint(1, 400000)) if rng.random() < 0.7 else dt.timedelta(seconds=rng.randint(1, 50))
@@ -218,6 +246,8 @@ def gen_asset_rows(rng, asset, exchanges, holders, flags, start_year):
         seq[0] += 1
         inst = next_t(table)
         off = rng.choice(OFFSETS_MIN) if flags.get("mixed_tz", True) else 0
+        if flags.get("new_year_start") and len(rows) < 4 and rng.random() < 0.8:
+            off = rng.choice([840, 765, 540])  # exported in a far-eastern zone: already next year on the wall clock, still the old year in UTC
         r = {
             "timestamp": render_ts(inst, off, rng.choice(ts_styles)),
             "asset": asset,
@@ -431,8 +461,8 @@ def gen_world(rng, flags=None, country="us"):
         tlist = []
         for table in order:
             if tables[table] or table == "IN" or rng.random() < 0.3:
-                tlist.append({"type": table, "rows": tables[table], "gap": rng.choice([0, 1, 1, 2, 5])})
-        sheets.append({"name": asset, "tables": tlist, "lead": rng.choice([0, 0, 1, 3])})
+                tlist.append({"type": table, "rows": tables[table], "gap": rng.choice([0, 1, 1, 2, 5]) if rng.random() < 0.95 else rng.choice([40, 60, 130])})
+        sheets.append({"name": asset, "tables": tlist, "lead": rng.choice([0, 0, 1, 3]) if rng.random() < 0.97 else rng.choice([55, 90])})
     if flags.get("permute", True):
         rng.shuffle(sheets)
     world = {
@@ -447,6 +477,7 @@ def gen_world(rng, flags=None, country="us"):
         "section_order": ["in_header", "out_header", "intra_header", "general", "accounting_methods"],
         "keyword_case": rng.choice(["upper", "upper", "upper", "lower", "title"]),
         "ties": bool(flags.get("ties")),
+        "new_year_start": bool(flags.get("new_year_start")),
     }
     if flags.get("permute", True):
         rng.shuffle(world["section_order"])
